@@ -37,14 +37,25 @@ void _orc_compiler_init(void);
  * should be called before using any other Orc function.
  * Subsequent calls to this function have no effect.
  */
+#if defined(__STDC_VERSION__) && __STDC_VERSION__ >= 201112L && ORC_ATOMICS_ALLOWED
+/* the flag is read outside the mutex: same acquire/release pairing as OrcOnce */
+typedef atomic_int OrcInitFlag;
+#define ORC_INIT_FLAG_GET(flag) atomic_load_explicit (&(flag), memory_order_acquire)
+#define ORC_INIT_FLAG_SET(flag) atomic_store_explicit (&(flag), TRUE, memory_order_release)
+#else
+typedef int OrcInitFlag;
+#define ORC_INIT_FLAG_GET(flag) (flag)
+#define ORC_INIT_FLAG_SET(flag) ((flag) = TRUE)
+#endif
+
 void
 orc_init (void)
 {
-  static int inited = FALSE;
+  static OrcInitFlag inited = FALSE;
 
-  if (!inited) {
+  if (!ORC_INIT_FLAG_GET (inited)) {
     orc_global_mutex_lock ();
-    if (!inited) {
+    if (!ORC_INIT_FLAG_GET (inited)) {
       ORC_ASSERT(sizeof(OrcExecutor) == sizeof(OrcExecutorAlt));
       ORC_VERIF_EMIT ("\"e\":\"InitBody\"");
 
@@ -77,7 +88,7 @@ orc_init (void)
       orc_mips_init();
 #endif
 
-      inited = TRUE;
+      ORC_INIT_FLAG_SET (inited);
     }
     orc_global_mutex_unlock ();
   }
